@@ -853,6 +853,22 @@ impl Statement<'_> {
     }
 
     pub(crate) fn generalize_types(&mut self, dtype_variables: &[TypeVariable]) {
+        // The where-locals of a function share the type variables of the function: number
+        // their quantified variables like the function's own ones.
+        if let Statement::DefineFunction {
+            local_variables,
+            fn_type: TypeScheme::Concrete(fn_type),
+            ..
+        } = self
+        {
+            let fn_variables = fn_type.type_variables(true);
+            for local_variable in local_variables {
+                local_variable
+                    .type_scheme
+                    .generalize_with_leading(dtype_variables, &fn_variables);
+            }
+        }
+
         self.for_all_type_schemes(&mut |type_: &mut TypeScheme| type_.generalize(dtype_variables));
     }
 
@@ -890,7 +906,7 @@ impl Statement<'_> {
                 readable_return_type,
                 ..
             } => {
-                let (fn_type, _) =
+                let (fn_type, fn_type_parameter_names) =
                     fn_type.instantiate_for_printing(Some(type_parameters.iter().map(|(n, _)| *n)));
 
                 for DefineVariable {
@@ -900,8 +916,11 @@ impl Statement<'_> {
                     ..
                 } in local_variables
                 {
-                    *readable_type =
-                        Self::create_readable_type(registry, type_scheme, type_annotation, false);
+                    *readable_type = match type_annotation {
+                        Some(annotation) => annotation.pretty_print(),
+                        None => type_scheme
+                            .to_readable_type_with_names(registry, &fn_type_parameter_names),
+                    };
                 }
 
                 let Type::Fn(parameter_types, return_type) = fn_type.inner else {
